@@ -5,3 +5,15 @@ impl<'a, U: Clone + 'a, F: IntoIterator<Item = U> + Clone + 'a> Part<F> {
         self.into_iter()
     }
 }
+#[cfg(kani)]
+impl<'a, V: ValT + 'a> Part<V> {
+    pub(crate) fn verif_run(&self, v: V) -> ValRs<'a, V> {
+        self.run(v)
+    }
+    pub(crate) fn verif_paths(&self, vp: (V, RcList<V>)) -> ValRs<'a, (V, RcList<V>), V> {
+        self.paths(vp)
+    }
+    pub(crate) fn verif_update(&self, v: V, opt: Opt) -> ValX<'a, V> {
+        self.update(v, opt, |v| core::iter::once(Ok(v)))
+    }
+}
